@@ -73,11 +73,14 @@ pub mod c25;
 pub mod c26;
 pub mod c27;
 pub mod c29;
+pub mod c32;
+pub mod c33;
+pub mod c34;
 pub mod c35;
 pub mod c36;
 
 pub fn all() -> Vec<Prop> {
-    vec![c01::prop(), c02::prop(), c03::prop(), c04::prop(), c05::prop(), c06::prop(), c07::prop(), c08::prop(), c09::prop(), c10::prop(), c11::prop11(), c11::prop12(), c13::prop(), c14::prop(), c15::prop(), c16::prop(), c17::prop17(), c17::prop18(), c19::prop(), c20::prop20(), c21::prop(), c20::prop22(), c23::prop23(), c23::prop24(), c25::prop(), c26::prop(), c27::prop27(), c27::prop28(), c29::prop29(), c29::prop30(), c29::prop31(), c35::prop(), c36::prop()]
+    vec![c01::prop(), c02::prop(), c03::prop(), c04::prop(), c05::prop(), c06::prop(), c07::prop(), c08::prop(), c09::prop(), c10::prop(), c11::prop11(), c11::prop12(), c13::prop(), c14::prop(), c15::prop(), c16::prop(), c17::prop17(), c17::prop18(), c19::prop(), c20::prop20(), c21::prop(), c20::prop22(), c23::prop23(), c23::prop24(), c25::prop(), c26::prop(), c27::prop27(), c27::prop28(), c29::prop29(), c29::prop30(), c29::prop31(), c32::prop(), c33::prop(), c34::prop(), c35::prop(), c36::prop()]
 }
 pub fn find(id: &str) -> Option<Prop> { all().into_iter().find(|p| p.id == id) }
 
